@@ -1,6 +1,7 @@
 package ingest
 
 import (
+	"bytes"
 	"fmt"
 	"io"
 
@@ -86,12 +87,24 @@ func IngestChangesFromYAML(r io.Reader) Change {
 }
 
 type ingestedYAML struct {
-	r io.Reader
+	r    io.Reader
+	read bool
+	data []byte
+	err  error
 }
 
-func (i ingestedYAML) Apply(m MutableWorld) (b6.Collection[b6.FeatureID, b6.FeatureID], error) {
+func (i *ingestedYAML) Apply(m MutableWorld) (b6.Collection[b6.FeatureID, b6.FeatureID], error) {
 	applied := b6.ArrayCollection[b6.FeatureID, b6.FeatureID]{}
-	decoder := yaml.NewDecoder(i.r)
+	// A change can be applied more than once (a merged change applies its
+	// parts to a scratch world first), so the reader is drained only once.
+	if !i.read {
+		i.data, i.err = io.ReadAll(i.r)
+		i.read = true
+	}
+	if i.err != nil {
+		return applied.Collection(), i.err
+	}
+	decoder := yaml.NewDecoder(bytes.NewReader(i.data))
 	for {
 		var y exportedYAML
 		if err := decoder.Decode(&y); err != nil {
